@@ -106,7 +106,7 @@ def build(crates=("abasic-core",), harness_files=None, generated=None, model=Tru
         with open(os.path.join(core_src, "lib.rs"), "a") as f:
             f.write("\n#[allow(dead_code)]\nmod verif_collections;\n")
 
-    def attach(crate, src_rel, modname, text):
+    def attach(crate, src_rel, modname, text, export=False):
         hdir = os.path.join(root, crate, "verif_h")
         os.makedirs(hdir, exist_ok=True)
         hp = os.path.join(hdir, modname + ".rs")
@@ -115,15 +115,22 @@ def build(crates=("abasic-core",), harness_files=None, generated=None, model=Tru
         target = os.path.join(root, crate, src_rel)
         if not os.path.exists(target):
             raise OverlayError("harness anchor %s/%s does not exist" % (crate, src_rel))
+        vis = "pub" if export else "pub(crate)"
         with open(target, "a") as f:
-            f.write('\n#[cfg(kani)]\n#[path = "%s"]\npub(crate) mod %s;\n' % (hp, modname))
+            f.write('\n#[cfg(kani)]\n#[path = "%s"]\n%s mod %s;\n' % (hp, vis, modname))
+        if export:
+            # make the module reachable from other crates of the overlay (contract stubs)
+            mp = src_rel[4:-3].replace("/", "::")
+            with open(os.path.join(root, crate, "src", "lib.rs"), "a") as f:
+                f.write("\n#[cfg(kani)]\npub use %s::%s;\n" % (mp, modname))
         info["attached"].append((crate, src_rel, modname, hp))
 
     for hpath, crate, src_rel in harness_files or []:
         modname = "verif_" + os.path.splitext(os.path.basename(hpath))[0]
         attach(crate, src_rel, modname, open(hpath).read())
-    for modname, crate, src_rel, text in generated or []:
-        attach(crate, src_rel, modname, text)
+    for g in generated or []:
+        modname, crate, src_rel, text = g[:4]
+        attach(crate, src_rel, modname, text, export=(len(g) > 4 and g[4]))
     return info
 
 
